@@ -12,7 +12,7 @@ Section PoolProofs.
   Notation prun := (prun tx_valid relevant verify true).
   Notation block_ok := (block_ok tx_valid verify).
 
-  (* what the refresh keeps is what a fresh verification at that height would admits *)
+  (* what the refresh keeps is what a fresh verification at that height would lets_in *)
   Hypothesis relevant_sound : forall h t, relevant h t = true -> tx_valid h t = true.
 
   Lemma in_pool_In pool t : in_pool pool t = true <-> In t pool.
@@ -53,7 +53,7 @@ Section PoolProofs.
   Proof.
     intros Hv st Hb t Ht. pose proof (pool_sound ops n0) as P. fold st in P.
     unfold AcceptPool.block_ok in Hb. rewrite forallb_forall in Hb. specialize (Hb t Ht).
-    unfold admits in Hb. rewrite Hv in Hb. simpl in Hb.
+    unfold lets_in in Hb. rewrite Hv in Hb. simpl in Hb.
     apply orb_true_iff in Hb as [Hb|Hb]; auto. apply P. apply in_pool_In. exact Hb.
   Qed.
 End PoolProofs.
